@@ -3,7 +3,7 @@
    Spec.v: reference finite map, [longest], [p_step]/[trace_ok], [ops_ok]. *)
 From Coq Require Import String List ZArith Bool Sorting.Sorted.
 From VF Require Import Platform.Model Platform.Spec Platform.Proofs Platform.ProofsRef
-  Platform.ProofsTrie Platform.ProofsHist.
+  Platform.ProofsTrie Platform.ProofsHist Platform.ProofsJson.
 Import ListNotations.
 Open Scope string_scope.
 
@@ -35,6 +35,27 @@ Theorem key_equal_iff_same_prefix_and_properties : forall (marshal : list prop -
     (key_eqb ka kb = true <-> (ka_inst a = ka_inst b /\ ka_props a = ka_props b)).
 Proof. exact key_equal_iff. Qed.
 Print Assumptions key_equal_iff_same_prefix_and_properties.
+
+(* The canonical string the model attributes to jsonpb (compared with
+   GetPlatformString() by the correspondence run whenever every name and
+   value is plain) is injective on property lists without double quotes,
+   so for those the assumption above is discharged: *)
+Theorem canonical_string_injective : forall ps1 ps2,
+  quote_free_props ps1 -> quote_free_props ps2 ->
+  marshal_platform ps1 = marshal_platform ps2 -> ps1 = ps2.
+Proof. exact marshal_platform_inj. Qed.
+Print Assumptions canonical_string_injective.
+
+Theorem plain_is_quote_free : forall ps, plain_props ps = true -> quote_free_props ps.
+Proof. exact plain_props_quote_free. Qed.
+Print Assumptions plain_is_quote_free.
+
+Theorem key_equal_canonical_string : forall a b ka kb, build_key a = KOk ka -> build_key b = KOk kb ->
+  quote_free_props (ka_props a) -> quote_free_props (ka_props b) ->
+  ((join_slash (k_inst ka), marshal_platform (k_plat ka)) = (join_slash (k_inst kb), marshal_platform (k_plat kb))
+     <-> (ka_inst a = ka_inst b /\ ka_props a = ka_props b)).
+Proof. exact key_equal_canonical. Qed.
+Print Assumptions key_equal_canonical_string.
 
 (* NewInstanceName (prefix / suffix / double slash test, FieldsFunc,
    reserved keywords) accepts exactly the '/'-joined lists of non-empty,
@@ -147,13 +168,15 @@ Definition ex_ops : list op :=
     OGetLongest (mkKA "x" []); ORemove (mkKA "a/b/c" ex_lin); OGetLongest (mkKA "a/b/c/d" ex_lin);
     ORemove (mkKA "a/b/c" ex_lin); ORemove (mkKA "a" ex_lin); OContains (mkKA "a" ex_lin);
     ONewKey (mkKA "a//b" []); ONewKey (mkKA "a" [("os", "linux"); ("arch", "arm")]);
-    ONewKey (mkKA "a" [("os", "linux"); ("os", "linux")]);
+    ONewKey (mkKA "a" [("os", "linux"); ("os", "linux")]); ONewKey (mkKA "a/b" [("", "x"); ("arch", ""); ("os", "linux")]);
     ORegister (mkKA "a" ex_lin); ORegister (mkKA "a/b" ex_lin); ORegister (mkKA "a" ex_lin);
     ORoute (mkKA "a/b/c" ex_lin); ORoute (mkKA "a" ex_lin); ORoute (mkKA "b" ex_lin); ORoute (mkKA "a/b" []) ].
 
 Example ex_trace : trace init ex_ops =
   [ XDone; XDone; XDone; XInt 0; XInt 1; XInt (-1); XInt 2; XDone; XInt 0; XPanic; XDone; XBool false;
     XKeyBadInstance; XKeyUnsorted; XKeyUnsorted;
+    XKeyOk "a/b" [("", "x"); ("arch", ""); ("os", "linux")]
+      "{""properties"":[{""value"":""x""},{""name"":""arch""},{""name"":""os"",""value"":""linux""}]}";
     XReg RegOk; XReg RegOk; XReg RegExists; XRoute 2; XRoute 1; XRoute 0; XRoute 0 ].
 Proof. vm_compute. reflexivity. Qed.
 
